@@ -365,6 +365,7 @@ Qed.
 
 Theorem init_all : exists ph sph ipd ipi sipi om iom,
   init_sh bits (Z.of_nat K) (2 ^ Z.of_nat K) castw mmc prepc fuel (Z.of_nat n) om0 iom0 ph0 sph0 ipd0 ipi0 sipi0 (Z.of_nat nm) roots P Pn invk = Some (ph, sph, ipd, ipi, sipi, om, iom) /\
+  lens_ok (ph, sph, ipd, ipi, sipi, om, iom) /\
   forall c, (c < nm)%nat ->
     nth c ipd 0 = NINV c /\
     (forall i, (i < n)%nat -> nth (c * n + i) ph 0 = nth i (PHIS c) 0 /\ nth (c * n + i) sph 0 = nth i (SH c (PHIS c)) 0 /\
@@ -372,8 +373,9 @@ Theorem init_all : exists ph sph ipd ipi sipi om iom,
     (forall i, (i < n - 1)%nat -> nth (c * (n * 2) + i) om 0 = nth i (FL c (OMEGA c)) 0 /\ nth (c * (n * 2) + n + i) om 0 = nth i (SH c (FL c (OMEGA c))) 0 /\
                                   nth (c * (n * 2) + i) iom 0 = nth i (FL c (INVOMEGA c)) 0 /\ nth (c * (n * 2) + n + i) iom 0 = nth i (SH c (FL c (INVOMEGA c))) 0).
 Proof.
-  exists (c1 (ST nm)), (c2 (ST nm)), (c3 (ST nm)), (c4 (ST nm)), (c5 (ST nm)), (c6 (ST nm)), (c7 (ST nm)). split.
+  exists (c1 (ST nm)), (c2 (ST nm)), (c3 (ST nm)), (c4 (ST nm)), (c5 (ST nm)), (c6 (ST nm)), (c7 (ST nm)). split; [|split].
   - rewrite init_ok. destruct (ST nm) as [[[[[[a1 a2] a3] a4] a5] a6] a7]. reflexivity.
+  - pose proof (ST_lens nm (Nat.le_refl nm)) as X. destruct (ST nm) as [[[[[[a1 a2] a3] a4] a5] a6] a7]. exact X.
   - intros c Hc. split; [apply ninv_rows; exact Hc|]. split.
     + intros i Hi. repeat split; [apply phis_rows | apply shoupphis_rows | apply cs_rows | apply shoupcs_rows]; assumption.
     + intros i Hi. destruct (omegas_rows c i Hc Hi) as [O1 O2]. destruct (invomegas_rows c i Hc Hi) as [O3 O4]. repeat split; assumption.
